@@ -743,44 +743,40 @@ Qed.
 (* ====================================================================== *)
 (* 3. list surgery by index, on lists given as concatenations              *)
 (* ====================================================================== *)
-Section Surgery.
-Context {A : Type}.
-Implicit Types (a b : list A) (x y : A).
 
-Lemma firstn_mid a b : firstn (length a) (a ++ b) = a.
+Lemma firstn_mid {A} (a : list A) (b : list A) : firstn (length a) (a ++ b) = a.
 Proof. rewrite firstn_app, Nat.sub_diag, firstn_all. simpl. apply app_nil_r. Qed.
-Lemma skipn_mid a b : skipn (length a) (a ++ b) = b.
+Lemma skipn_mid {A} (a : list A) (b : list A) : skipn (length a) (a ++ b) = b.
 Proof. rewrite skipn_app, Nat.sub_diag, skipn_all. reflexivity. Qed.
-Lemma nth_error_mid a x b : nth_error (a ++ x :: b) (length a) = Some x.
+Lemma nth_error_mid {A} (a : list A) (x : A) (b : list A) : nth_error (a ++ x :: b) (length a) = Some x.
 Proof. rewrite nth_error_app2, Nat.sub_diag by lia. reflexivity. Qed.
-Lemma skipn_mid_S a x b : skipn (S (length a)) (a ++ x :: b) = b.
+Lemma skipn_mid_S {A} (a : list A) (x : A) (b : list A) : skipn (S (length a)) (a ++ x :: b) = b.
 Proof. induction a as [|z a IH]; [reflexivity|]. exact IH. Qed.
-Lemma insert_at_mid a y b : insert_at (length a) y (a ++ b) = a ++ y :: b.
+Lemma insert_at_mid {A} (a : list A) (y : A) (b : list A) : insert_at (length a) y (a ++ b) = a ++ y :: b.
 Proof. unfold insert_at. now rewrite firstn_mid, skipn_mid. Qed.
-Lemma set_at_mid a x y b : set_at (length a) y (a ++ x :: b) = a ++ y :: b.
+Lemma set_at_mid {A} (a : list A) (x : A) (y : A) (b : list A) : set_at (length a) y (a ++ x :: b) = a ++ y :: b.
 Proof.
   unfold set_at. now rewrite firstn_mid, skipn_mid_S.
 Qed.
-Lemma delete_at_mid a x b : delete_at (length a) (a ++ x :: b) = a ++ b.
+Lemma delete_at_mid {A} (a : list A) (x : A) (b : list A) : delete_at (length a) (a ++ x :: b) = a ++ b.
 Proof.
   unfold delete_at. now rewrite firstn_mid, skipn_mid_S.
 Qed.
-Lemma insert_at_S a x y b : insert_at (S (length a)) y (a ++ x :: b) = a ++ x :: y :: b.
+Lemma insert_at_S {A} (a : list A) (x : A) (y : A) (b : list A) : insert_at (S (length a)) y (a ++ x :: b) = a ++ x :: y :: b.
 Proof. unfold insert_at. rewrite skipn_mid_S.
   replace (a ++ x :: b) with ((a ++ [x]) ++ b) by (now rewrite <- app_assoc).
   replace (S (length a)) with (length (a ++ [x])) by (rewrite app_length; simpl; lia).
   rewrite firstn_mid. now rewrite <- app_assoc. Qed.
-Lemma insert_at_1 a x y b : insert_at (length a + 1) y (a ++ x :: b) = a ++ x :: y :: b.
+Lemma insert_at_1 {A} (a : list A) (x : A) (y : A) (b : list A) : insert_at (length a + 1) y (a ++ x :: b) = a ++ x :: y :: b.
 Proof. rewrite Nat.add_1_r. apply insert_at_S. Qed.
-Lemma insert_at_2 a x1 x2 y b : insert_at (length a + 2) y (a ++ x1 :: x2 :: b) = a ++ x1 :: x2 :: y :: b.
+Lemma insert_at_2 {A} (a : list A) (x1 : A) (x2 : A) (y : A) (b : list A) : insert_at (length a + 2) y (a ++ x1 :: x2 :: b) = a ++ x1 :: x2 :: y :: b.
 Proof.
   replace (length a + 2) with (S (length (a ++ [x1]))) by (rewrite app_length; simpl; lia).
   replace (a ++ x1 :: x2 :: b) with ((a ++ [x1]) ++ x2 :: b) by (now rewrite <- app_assoc).
   rewrite insert_at_S. now rewrite <- app_assoc.
 Qed.
-Lemma reassoc a x m z : (a ++ x :: m) ++ z = a ++ x :: m ++ z.
+Lemma reassoc {A} (a : list A) (x : A) (m : list A) (z : list A) : (a ++ x :: m) ++ z = a ++ x :: m ++ z.
 Proof. now rewrite <- app_assoc. Qed.
-End Surgery.
 
 Definition indent_hd (l : list str) : list str :=
   match l with [] => [] | x :: r => indent1 x :: r end.
@@ -1195,7 +1191,7 @@ Proof.
       exists []. split; [reflexivity|reflexivity].
     + clear IHa2. apply Forall_app in Hpl as [Hpl Hz]. inversion Hz as [|? ? [_ Hze] _]; subst.
       replace (length (a1 ++ ls :: a2 ++ [z]) - 1) with (length (a1 ++ ls :: a2))
-        by (rewrite !app_length; simpl; rewrite app_length; simpl; lia).
+        by (repeat (rewrite app_length || cbn [length]); lia).
       rewrite (step_far_noend ty a1 ls a2 z [] [] ind ty post HS Hze).
       eexists. split; [reflexivity|].
       wsolve.
@@ -1360,3 +1356,318 @@ Proof.
         -- rewrite words_cons, Hw0. cbn [flat_map]. now rewrite Hx.
         -- split; [congruence|]. intros _. now exists T0.
 Qed.
+
+(* ====================================================================== *)
+(* 7. theorems                                                             *)
+(* ====================================================================== *)
+Lemma admon_ok_LF l : admon_ok l = true -> Forall LF l.
+Proof.
+  unfold admon_ok. rewrite forallb_forall. intros H. apply Forall_forall. intros x Hx.
+  apply clean_LF. now apply H.
+Qed.
+
+Lemma run_unfold l :
+  run l = bind (find_emit 0 None l) (fun adms => process_rec adms l).
+Proof.
+  unfold run. rewrite find_admonitions_emit. destruct (find_emit 0 None l); simpl; [|reflexivity].
+  apply process_admonitions_rec.
+Qed.
+
+(* clean lines: when the first pass accepts the text, the second pass succeeds and the words
+   of the result are exactly the specified ones *)
+Theorem admon_total l adms :
+  admon_ok l = true -> find_admonitions l = Ok adms ->
+  exists out, run l = Ok out /\ words out = spec_words l.
+Proof.
+  intros Hok Hf. rewrite find_admonitions_emit in Hf. rewrite run_unfold, Hf. cbn [bind].
+  destruct (main l [] None adms (admon_ok_LF l Hok) Hf) as (T & Hp & Hw & _).
+  exists T. split; [exact Hp|]. now rewrite spec_words_flat.
+Qed.
+
+Theorem admon_words l out :
+  admon_ok l = true -> run l = Ok out -> words out = spec_words l.
+Proof.
+  intros Hok Hrun. destruct (find_admonitions l) as [adms|e] eqn:Hf.
+  - destruct (admon_total l adms Hok Hf) as (out' & Hr & Hw). congruence.
+  - unfold run in Hrun. rewrite Hf in Hrun. discriminate.
+Qed.
+
+(* ---- errors ---- *)
+Lemma lift_err {A} (acc : list A) r e : lift acc r = Err e -> r = Err e.
+Proof. destruct r; simpl; congruence. Qed.
+
+Lemma find_emit_errors l : forall i cur e,
+  find_emit i cur l = Err e -> e = EEndNoStart \/ e = ETypeMismatch.
+Proof.
+  induction l as [|x l IH]; intros i cur e H; [discriminate|]. cbn [find_emit] in H.
+  destruct (adm_search x) as [[[[p ind] ty] post]|]; destruct (end_search x) as [[[pre ety] epost]|];
+    destruct cur as [[[cty cst] ceo]|];
+    try destruct (str_eqb (lower ety) (lower ty)); try destruct (str_eqb (lower ety) (lower cty));
+    try (injection H as <-; auto; fail); try (apply lift_err in H; eapply IH; exact H).
+Qed.
+
+(* on clean lines the only exceptions are the two documented ones, raised by the first pass:
+   nothing is dropped silently and the second pass cannot fail *)
+Theorem admon_errors l e :
+  admon_ok l = true -> run l = Err e -> e = EEndNoStart \/ e = ETypeMismatch.
+Proof.
+  intros Hok Hrun. destruct (find_admonitions l) as [adms|e'] eqn:Hf.
+  - destruct (admon_total l adms Hok Hf) as (out & Hr & _). congruence.
+  - unfold run in Hrun. rewrite Hf in Hrun. cbn [bind] in Hrun. injection Hrun as <-.
+    rewrite find_admonitions_emit in Hf. eapply find_emit_errors; eauto.
+Qed.
+
+Lemma find_emit_plain_none P : forall i r,
+  Forall plain P -> find_emit i None (P ++ r) = find_emit (i + length P) None r.
+Proof.
+  induction P as [|x P IH]; intros i r H; [cbn [app length]; now rewrite Nat.add_0_r|].
+  inversion H as [|? ? [HS HE] HP]; subst. cbn [app find_emit]. rewrite HS, HE, IH by assumption.
+  replace (i + length (x :: P)) with (S i + length P) by (simpl; lia).
+  now destruct (find_emit (S i + length P) None r).
+Qed.
+
+Lemma find_emit_plain_some M : forall i ty st eo r,
+  Forall plain M ->
+  exists eo', find_emit i (Some (ty, st, eo)) (M ++ r) = find_emit (i + length M) (Some (ty, st, eo')) r.
+Proof.
+  induction M as [|x M IH]; intros i ty st eo r H.
+  - exists eo. cbn [app length]. now rewrite Nat.add_0_r.
+  - inversion H as [|? ? [HS HE] HM]; subst. cbn [app find_emit]. rewrite HS, HE.
+    match goal with |- context [find_emit (S i) (Some (ty, st, ?e)) (M ++ r)] =>
+      destruct (IH (S i) ty st e r HM) as (eo' & ->) end.
+    exists eo'. replace (i + length (x :: M)) with (S i + length M) by (simpl; lia).
+    now destruct (find_emit (S i + length M) (Some (ty, st, eo')) r).
+Qed.
+
+(* an end marker with no box open raises *)
+Theorem end_without_start P x R :
+  Forall plain P -> adm_search x = None -> end_search x <> None ->
+  run (P ++ x :: R) = Err EEndNoStart.
+Proof.
+  intros HP HS HE. rewrite run_unfold, find_emit_plain_none by assumption. cbn [find_emit].
+  rewrite HS. destruct (end_search x) as [[[pre ety] epost]|]; [reflexivity|congruence].
+Qed.
+
+(* an end marker of another type than the open box raises *)
+Theorem end_type_mismatch P st M x R p ind ty post pre ety epost :
+  Forall plain P -> adm_search st = Some (p, ind, ty, post) -> end_search st = None ->
+  Forall plain M -> adm_search x = None -> end_search x = Some (pre, ety, epost) ->
+  lower ety <> lower ty ->
+  run (P ++ st :: M ++ x :: R) = Err ETypeMismatch.
+Proof.
+  intros HP HS HE HM HSx HEx Hne. rewrite run_unfold, find_emit_plain_none by assumption.
+  cbn [find_emit]. rewrite HS, HE.
+  match goal with |- context [find_emit ?i (Some (ty, ?s, ?e)) (M ++ x :: R)] =>
+    destruct (find_emit_plain_some M i ty s e (x :: R) HM) as (eo' & ->) end.
+  cbn [find_emit]. rewrite HSx, HEx.
+  assert (str_eqb (lower ety) (lower ty) = false) as -> by now apply str_eqb_neq.
+  reflexivity.
+Qed.
+
+(* ---- the confirmed defect: text before "@type" on the same line is discarded ---- *)
+Definition start_clean_pre (x : str) : bool :=
+  match scan start_here x with
+  | None => true
+  | Some (b, _, post) =>
+    next_is_space_or_end post && match scan start_here post with None => true | Some _ => false end
+  end.
+
+Lemma start_clean_split x : start_clean x = start_clean_pre x && negb (pretext_region x).
+Proof.
+  unfold start_clean, start_clean_pre, pretext_region.
+  destruct (scan start_here x) as [[[b ty] post]|]; [|reflexivity].
+  rewrite negb_involutive. destruct (all_space b); simpl; [now rewrite andb_true_r|].
+  now rewrite andb_false_r.
+Qed.
+
+(* the full statement: markers are whole words, a start marker may be preceded by text *)
+Definition admon_words_statement : Prop :=
+  forall l out,
+    forallb (fun x => start_clean_pre x && end_clean x) l = true ->
+    run l = Ok out -> words out = spec_words l.
+
+Theorem admon_words_partial l out :
+  forallb (fun x => start_clean_pre x && end_clean x) l = true ->
+  existsb pretext_region l = false ->
+  run l = Ok out -> words out = spec_words l.
+Proof.
+  intros H1 H2. apply admon_words. unfold admon_ok. apply forallb_forall. intros x Hx.
+  unfold line_clean. rewrite start_clean_split.
+  rewrite forallb_forall in H1. specialize (H1 x Hx). apply andb_true_iff in H1 as [-> ->].
+  assert (pretext_region x = false) as ->.
+  { destruct (pretext_region x) eqn:E; [|reflexivity].
+    assert (existsb pretext_region l = true) by (apply existsb_exists; eauto). congruence. }
+  reflexivity.
+Qed.
+
+Definition pretext_witness : list str := [s "alpha beta @note gamma"].
+
+Theorem refuted_pretext :
+  forallb (fun x => start_clean_pre x && end_clean x) pretext_witness = true /\
+  existsb pretext_region pretext_witness = true /\
+  run pretext_witness = Ok [s " @note Note"; s "      gamma"] /\
+  spec_words pretext_witness = [s "alpha"; s "beta"; s "@note"; s "Note"; s "gamma"] /\
+  words [s " @note Note"; s "      gamma"] = [s "@note"; s "Note"; s "gamma"].
+Proof. vm_compute. repeat split. Qed.
+
+Theorem refuted_pretext_statement : ~ admon_words_statement.
+Proof.
+  intros H. specialize (H pretext_witness [s " @note Note"; s "      gamma"] eq_refl eq_refl).
+  vm_compute in H. discriminate H.
+Qed.
+
+(* ---- indentation: the lines strictly inside a box get four more blanks ---- *)
+(* one iteration of the second pass, any position of the box in the text: the lines strictly
+   between the start line and the end line are indented (empty lines stay empty), the lines
+   before the box are untouched *)
+Theorem step_indents ty a1 ls m le r p ind ty' post out :
+  adm_search ls = Some (p, ind, ty', post) ->
+  step (ty, length a1, length (a1 ++ ls :: m)) (a1 ++ ls :: m ++ le :: r) = Ok out ->
+  exists tail, out = a1 ++ title_block ind ty post ++ map indent1 m ++ tail.
+Proof.
+  intros HS. destruct (end_search le) as [[[pre ety] epost]|] eqn:HE.
+  - rewrite (step_far_end ty a1 ls m le r p ind ty' post pre ety epost HS HE).
+    intros H. injection H as <-. eexists. reflexivity.
+  - rewrite (step_far_noend ty a1 ls m le r p ind ty' post HS HE).
+    intros H. injection H as <-. eexists. reflexivity.
+Qed.
+
+(* the whole pre-processor on a box closed by its end marker, preceded by plain text and followed
+   by any clean text *)
+Record box_hyps (P : list str) (st : str) (M : list str) (x : str) (Q : list str)
+       (ind ty post pre ety epost : str) : Prop := {
+  bh_P : Forall plain P;
+  bh_start : adm_search st = Some ([], ind, ty, post);
+  bh_noend : end_search st = None;
+  bh_ind : blank ind;
+  bh_ty : typ_ok ty;
+  bh_M : Forall plain M;
+  bh_x : adm_search x = None;
+  bh_end : end_search x = Some (pre, ety, epost);
+  bh_same : lower ety = lower ty;
+  bh_Q : admon_ok Q = true
+}.
+
+Lemma box_run P st M x Q ind ty post pre ety epost out :
+  box_hyps P st M x Q ind ty post pre ety epost ->
+  run (P ++ st :: M ++ x :: Q) = Ok out ->
+  exists T0,
+    out = P ++ title_block ind ty post ++ map indent1 M ++ map indent1 (end_keep pre)
+            ++ indent_hd (end_extra epost ++ T0)
+    /\ words T0 = spec_words Q
+    /\ match Q with q :: _ => plain q -> exists T', T0 = q :: T' | [] => T0 = [] end.
+Proof.
+  intros [HP HS HE Hi Hty HM HSx HEx Hsame HQ]. rewrite run_unfold.
+  rewrite find_emit_plain_none by assumption. cbn [find_emit]. rewrite HS, HE.
+  assert (Hne : is_empty st = false).
+  { destruct st; [rewrite adm_search_nil in HS; discriminate|reflexivity]. }
+  rewrite Hne.
+  destruct (find_emit_plain_some M (S (0 + length P)) ty (0 + length P) None (x :: Q) HM) as (eo' & ->).
+  cbn [find_emit]. rewrite HSx, HEx.
+  assert (str_eqb (lower ety) (lower ty) = true) as -> by now apply str_eqb_eq.
+  cbn [app].
+  assert (Hidx : S (S (0 + length P) + length M) = length ((P ++ st :: M) ++ [x]))
+    by (repeat (rewrite app_length || cbn [length]); lia).
+  rewrite Hidx.
+  destruct (find_emit (length ((P ++ st :: M) ++ [x])) None Q) as [adms0|e] eqn:Hf0; [|discriminate].
+  cbn [lift bind app process_rec].
+  destruct (main Q ((P ++ st :: M) ++ [x]) None adms0 (admon_ok_LF Q HQ) Hf0) as (T0 & Hp0 & Hw0 & Hhd).
+  replace (P ++ st :: M ++ x :: Q) with (((P ++ st :: M) ++ [x]) ++ Q) by app_norm.
+  rewrite Hp0. cbn [bind].
+  replace (((P ++ st :: M) ++ [x]) ++ T0) with (P ++ st :: M ++ x :: T0) by app_norm.
+  replace (0 + length P) with (length P) by lia.
+  replace (S (length P) + length M) with (length (P ++ st :: M)) by (rewrite app_length; simpl; lia).
+  rewrite (step_far_end ty P st M x T0 [] ind ty post pre ety epost HS HEx).
+  intros H. injection H as <-. exists T0. split; [reflexivity|]. split.
+  - now rewrite spec_words_flat.
+  - destruct Q as [|q Q']; [|exact (proj2 Hhd)].
+    cbn [find_emit] in Hf0. injection Hf0 as <-. cbn [process_rec] in Hp0. injection Hp0 as Hp0.
+    apply app_inv_head in Hp0. now symmetry.
+Qed.
+
+Theorem box_indent P st M x Q ind ty post pre ety epost out :
+  box_hyps P st M x Q ind ty post pre ety epost ->
+  run (P ++ st :: M ++ x :: Q) = Ok out ->
+  exists T,
+    out = P ++ title_block ind ty post ++ map indent1 M ++ map indent1 (end_keep pre) ++ T
+    /\ words T = words_line epost ++ spec_words Q.
+Proof.
+  intros Hb Hrun. destruct (box_run _ _ _ _ _ _ _ _ _ _ _ _ Hb Hrun) as (T0 & -> & Hw & _).
+  eexists. split; [reflexivity|]. now rewrite words_indent_hd, words_app, words_end_extra, Hw.
+Qed.
+
+(* exactness: the plain line that follows the end-marker line keeps its indentation *)
+Definition box_exact_statement : Prop :=
+  forall P st M x q Q ind ty post pre ety epost out,
+    box_hyps P st M x (q :: Q) ind ty post pre ety epost -> plain q ->
+    run (P ++ st :: M ++ x :: q :: Q) = Ok out ->
+    exists T', out = P ++ title_block ind ty post ++ map indent1 M ++ map indent1 (end_keep pre)
+                       ++ end_extra epost ++ q :: T'.
+
+(* recorded region: nothing after the end marker on its line and a non-empty next line *)
+Definition pullin_region (epost q : str) : bool := is_empty epost && negb (is_empty q).
+
+Theorem box_exact_partial P st M x q Q ind ty post pre ety epost out :
+  box_hyps P st M x (q :: Q) ind ty post pre ety epost -> plain q ->
+  pullin_region epost q = false ->
+  run (P ++ st :: M ++ x :: q :: Q) = Ok out ->
+  exists T', out = P ++ title_block ind ty post ++ map indent1 M ++ map indent1 (end_keep pre)
+                     ++ end_extra epost ++ q :: T'.
+Proof.
+  intros Hb Hq Hreg Hrun. destruct (box_run _ _ _ _ _ _ _ _ _ _ _ _ Hb Hrun) as (T0 & -> & _ & Hhd).
+  destruct (Hhd Hq) as (T' & ->). exists T'. do 4 f_equal.
+  unfold pullin_region in Hreg. destruct epost as [|c e]; [|reflexivity].
+  destruct q as [|c q]; [reflexivity|discriminate Hreg].
+Qed.
+
+Definition pullin_witness : list str := [s "@note"; s "a"; s "@endnote"; s "b"].
+
+Theorem refuted_pullin :
+  run pullin_witness = Ok [s "@note Note"; s "    a"; s "    b"].
+Proof. reflexivity. Qed.
+
+Theorem refuted_box_exact : ~ box_exact_statement.
+Proof.
+  intros H.
+  destruct (H [] (s "@note") [s "a"] (s "@endnote") (s "b") [] [] (s "note") [] [] (s "note") []
+              [s "@note Note"; s "    a"; s "    b"]) as (T' & HT).
+  - constructor; try reflexivity; repeat constructor.
+  - split; reflexivity.
+  - reflexivity.
+  - vm_compute in HT. discriminate HT.
+Qed.
+
+(* a box closed by the next box: the next title line is indented as well (python-markdown then
+   nests the second box in the first one) *)
+Theorem consecutive_boxes_nested :
+  run [s "@note a"; s "@warning b"] = Ok [s "@note Note"; s "     a"; s "    @note Warning"; s "     b"].
+Proof. reflexivity. Qed.
+
+(* ---- non-vacuity ---- *)
+Definition sample_body : list str :=
+  [s "intro words"; s "@note first box"; s "- item one"; s "  @endnote"; []; s "between";
+   s "  @Warning"; s "text inside"; s "tail @endwarning after"; s "@todo one line @endtodo";
+   s "@bug"; s "last words"].
+
+Example admon_words_ex :
+  admon_ok sample_body = true /\
+  exists out, run sample_body = Ok out /\ words out = spec_words sample_body /\
+              In (s "Warning") (words out) /\ In (s "after") (words out).
+Proof.
+  split; [reflexivity|]. eexists. split; [reflexivity|]. split; [reflexivity|].
+  split; vm_compute; tauto.
+Qed.
+
+Example admon_errors_ex :
+  admon_ok [s "text"; s "@endnote"] = true /\ run [s "text"; s "@endnote"] = Err EEndNoStart /\
+  admon_ok [s "@note"; s "x"; s "@endbug"] = true /\ run [s "@note"; s "x"; s "@endbug"] = Err ETypeMismatch.
+Proof. repeat split. Qed.
+
+Example box_hyps_ex :
+  box_hyps [s "intro"] (s "  @note title") [s "  body"; []; s "  more"] (s "  last @endnote tail")
+           [s "after"; s "@bug x"] (s "  ") (s "note") (s " title") (s "  last") (s "note") (s "tail").
+Proof. constructor; try reflexivity; repeat constructor. Qed.
+
+Example box_exact_ex :
+  plain (s "after") /\ pullin_region (s "tail") (s "after") = false.
+Proof. repeat split. Qed.
